@@ -2,7 +2,7 @@
     Statements only; every proof is [exact <lemma>].  PARTIAL: the logical diff/merge steps of the
     cluster synchronisation of gRPC instances and the fixpoint argument are proved here; liveness
     under real message delay / loss and the failure-detection timing are runtime matters. *)
-From RN Require Import Naming.Sync Naming.SyncProofs Naming.SyncTheorems.
+From RN Require Import Naming.Distro Naming.Sync Naming.SyncProofs Naming.SyncTheorems Naming.SyncHttp.
 Local Open Scope N_scope.
 
 (** the delay actor sends, for every key, exactly the LAST operation notified since the previous
@@ -115,3 +115,63 @@ Theorem C15_rejoin_receives_snapshot : forall J S k c v,
   aget k (sn_reg (join_pull J S)) = Some (mkInst v (sn_id S) c) /\
   peers_has (sn_id S) c (sn_peers (join_pull J S)) = true.
 Proof. exact rejoin_receives_snapshot. Qed.
+
+(** * HTTP instances (routed writes, batches from the owner); all live nodes share the view [v] *)
+
+(** a registration handed to ANY live node is, after the owner's batch, held by EVERY live node: locally
+    owned and time-out supervised on the owner, a copy attributed to the owner elsewhere *)
+Theorem C15_http_register_converges : forall (v : view) (hash : N -> N), NoDup (ids v) ->
+  forall E k val n (r : sreg),
+    live v E -> live v n ->
+    exists ow, route_target v E (hash k) = Some ow /\ live v ow /\
+      let r' := after_flush v hash n ow [http_write_note k val] (http_write_at v hash n E k val r) in
+      aget k r' = Some (hinst val (if n =? ow then 0 else ow)) /\
+      (timeout_enabled (hinst val (if n =? ow then 0 else ow)) = true <-> n = ow \/ ow = 0).
+Proof. exact http_register_converges. Qed.
+
+Theorem C15_http_register_all_agree : forall (v : view) (hash : N -> N), NoDup (ids v) ->
+  forall E k val n1 n2 (r1 r2 : sreg),
+    live v E -> live v n1 -> live v n2 -> (forall n, live v n -> n <> 0) ->
+    forall ow, route_target v E (hash k) = Some ow ->
+      gview (mkNode n1 (after_flush v hash n1 ow [http_write_note k val] (http_write_at v hash n1 E k val r1)) []) k =
+      gview (mkNode n2 (after_flush v hash n2 ow [http_write_note k val] (http_write_at v hash n2 E k val r2)) []) k.
+Proof. exact http_register_all_agree. Qed.
+
+(** after a deregistration handed to any live node and the owner's batch NO live node holds the instance *)
+Theorem C15_http_deregister_converges : forall (v : view) (hash : N -> N),
+  forall E k n (rn row : sreg) val,
+    live v E -> live v n ->
+    forall ow, route_target v E (hash k) = Some ow ->
+      aget k row = Some (hinst val 0) ->
+      (forall i, aget k rn = Some i -> si_client i = no_client) ->
+      (n = ow -> rn = row) ->
+      aget k (after_flush v hash n ow (http_delete_notes ow k row) (http_delete_at v hash n E k rn)) = None.
+Proof. exact http_deregister_converges. Qed.
+
+(** interplay with [batch_last_op_wins]: update and remove of one key inside one 500 ms window *)
+Theorem C15_http_register_then_deregister_in_one_window : forall (v : view) (hash : N -> N),
+  forall k val n ow (rn : sreg),
+    n <> ow -> (forall i, aget k rn = Some i -> si_client i = no_client) ->
+    aget k (after_flush v hash n ow [http_write_note k val; (k, (hinst val 0, false))] rn) = None.
+Proof. exact http_register_then_deregister_in_one_window. Qed.
+
+Theorem C15_http_deregister_then_register_in_one_window : forall (v : view) (hash : N -> N),
+  forall k val old n ow (rn : sreg),
+    n <> ow -> owns v n (hash k) = false ->
+    aget k (after_flush v hash n ow [(k, (hinst old 0, false)); http_write_note k val] rn) = Some (hinst val ow).
+Proof. exact http_deregister_then_register_in_one_window. Qed.
+
+(** KNOWN FINDINGS (keys http-sync-stale-state:snapshot and :ownership): snapshots and update batches are applied unconditionally —
+    one built before a deregistration / update and applied after it restores the older state *)
+Theorem C15_stale_snapshot_restores_deregistered :
+  exists (R : snode) (k ow : N) (is : list (N * sinst)),
+    aget k (sn_reg R) = None /\
+    aget k (sn_reg (fst (fst (recv R ow (MSnapshot is))))) <> None /\
+    aget k (sn_reg (fst (fst (recv R ow (MBatch is []))))) <> None.
+Proof. exact stale_snapshot_restores_deregistered. Qed.
+
+Theorem C15_stale_snapshot_overwrites_update :
+  exists (R : snode) (k ow : N) (is : list (N * sinst)),
+    aget k (sn_reg R) = Some (hinst 7 1) /\
+    aget k (sn_reg (fst (fst (recv R ow (MSnapshot is))))) = Some (hinst 8 1).
+Proof. exact stale_snapshot_overwrites_update. Qed.
